@@ -210,12 +210,16 @@ class TemplateInterpreter:
 
 	def execute (self, template):
 		self.cleanState()
+		# Every evaluation sets the 'attrs' variable to the attributes of the
+		# element at hand; the caller gets back the one it came with.
+		attrs = self.context.globals.get ('attrs')
 		self.commandList, self.programCounter, programLength, self.symbolTable = template.getProgram()
 		cmndList = self.commandList
 		while (self.programCounter < programLength):
 			cmnd = cmndList [self.programCounter]
 			#print "PC: %s  -  Executing command: %s" % (str (self.programCounter), str (cmnd))
 			self.commandHandler[cmnd[0]] (cmnd[0], cmnd[1])
+		self.context.globals ['attrs'] = attrs
 	
 	def cmdDefine (self, command, args):
 		""" args: [(isLocalFlag (Y/n), variableName, variablePath),...]
